@@ -94,7 +94,7 @@ def jobs(tier):
         js.append({'kind': 'json', 'n': n_json, 'max_ops': ops, 'max_leaves': 10 if tier == 'quick' else 20, 'shard': s})
         js.append({'kind': 'nested', 'n': n_nested, 'max_ops': ops, 'max_leaves': 0, 'shard': s})
         js.append({'kind': 'skewed', 'n': max(8, n_nested // 10), 'max_ops': 10, 'max_leaves': 0, 'shard': s})
-        js.append({'kind': 'padded', 'n': max(16, n_nested // 5), 'max_ops': 10, 'max_leaves': 0, 'shard': s})
+        js.append({'kind': 'padded', 'n': max(60, n_nested // 3), 'max_ops': 10, 'max_leaves': 0, 'shard': s})
         js.append({'kind': 'exhaustive', 'maxlen': exl, 'shard': s})
     return js
 
